@@ -23,6 +23,18 @@ type plan struct {
 	failInit  string // component key whose Init fails
 	failRun   string
 	failClose map[string]bool
+	errKind   int // what a failing component returns: its own error, or one that wraps a context error
+}
+
+// fail: the error a failing component returns. A component may well report the end of a context of its own.
+func (p plan) fail(key, what string) error {
+	switch p.errKind {
+	case 1:
+		return fmt.Errorf("%s of %s: %w: %w", what, key, errInjected, context.Canceled)
+	case 2:
+		return fmt.Errorf("%s of %s: %w: %w", what, key, errInjected, context.DeadlineExceeded)
+	}
+	return fmt.Errorf("%s of %s: %w", what, key, errInjected)
 }
 
 type world struct {
@@ -64,7 +76,7 @@ func (c *comp) Init(a *app.App) error {
 		c.w.looks = append(c.w.looks, lookup{c.key, n, k})
 	}
 	if c.w.plan.failInit == c.key {
-		return errInjected
+		return c.w.plan.fail(c.key, "init")
 	}
 	return nil
 }
@@ -77,7 +89,7 @@ func (c *rcomp) Run(ctx context.Context) error {
 	}
 	c.w.calls = append(c.w.calls, "run:"+c.key)
 	if c.w.plan.failRun == c.key {
-		return errInjected
+		return c.w.plan.fail(c.key, "run")
 	}
 	return nil
 }
@@ -89,7 +101,7 @@ func (c *rcomp) Close(ctx context.Context) error {
 	c.w.calls = append(c.w.calls, "close:"+c.key)
 	c.w.closed[c.key]++
 	if c.w.plan.failClose[c.key] {
-		return fmt.Errorf("close of %s: %w", c.key, errInjected)
+		return c.w.plan.fail(c.key, "close")
 	}
 	return nil
 }
@@ -143,7 +155,16 @@ func build(w *world, chain []appSpec) (apps []*app.App, keys [][]string, runn []
 		}
 		var ks []string
 		var rs []bool
-		for _, cs := range as.comps {
+		// some components are registered late: the container is asked for names in between (a lookup made before
+		// a local component of that name exists resolves through the parents; afterwards it must resolve locally)
+		lateFrom := len(as.comps)
+		if w.r.Src.Flip("late-registration", 0.4) {
+			lateFrom = w.r.Src.Choose("late-from", len(as.comps)+1)
+		}
+		for ci, cs := range as.comps {
+			if ci == lateFrom {
+				w.earlyLookups(a, chain, len(apps), lateFrom)
+			}
 			c := comp{w: w, key: as.label + "/" + cs.name, name: cs.name, lookups: cs.lookups}
 			if cs.runnable {
 				a.Register(&rcomp{c})
@@ -160,6 +181,39 @@ func build(w *world, chain []appSpec) (apps []*app.App, keys [][]string, runn []
 		parent = a
 	}
 	return
+}
+
+// earlyLookups asks container a (level lvl, with its first n components registered) for some names before the rest
+// is registered, and checks the answers against the reference resolution at that moment.
+func (w *world) earlyLookups(a *app.App, chain []appSpec, lvl, n int) {
+	s := w.r.Src
+	for k := 0; k < 1+s.Choose("early-lookups", 3); k++ {
+		name := namePool[s.Choose("early-name", len(namePool))]
+		want := ""
+		for l := lvl; l >= 0 && want == ""; l-- {
+			comps := chain[l].comps
+			if l == lvl {
+				comps = comps[:n]
+			}
+			for _, c := range comps {
+				if c.name == name {
+					want = chain[l].label + "/" + c.name
+					break
+				}
+			}
+		}
+		got := ""
+		switch g := a.Component(name).(type) {
+		case *comp:
+			got = g.key
+		case *rcomp:
+			got = g.key
+		}
+		if got != want {
+			w.r.Fail("lookup", "early", "lookup of %q in container L%d with %d components registered resolved to %q, want %q", name, lvl, n, got, want)
+		}
+		w.r.Probe("lookup-before-late-registration")
+	}
 }
 
 // expectedStart is the reference model of Start for one container, written from the property text.
@@ -243,6 +297,7 @@ func runC20(r *core.Run) {
 	for _, lg := range legs {
 		w := &world{r: r, inited: map[string]bool{}, closed: map[string]int{}}
 		w.plan.failClose = map[string]bool{}
+		w.plan.errKind = s.Choose("err-kind", 3)
 		apps, keys, runn := build(w, chain)
 		switch lg.kind {
 		case "init":
